@@ -942,6 +942,18 @@ func (m *Monitors) onEDS(inv *simapi.Invocation, out kit.Outcome) {
 			ctx.Count("C13.rs-creates-judged")
 			sub := c.Submitted.(*v1.ExtendedDaemonSetReplicaSet)
 			mk := kit.MarkerOfTemplate(&sub.Spec.Template)
+			// a create of this same reconcile that was applied (even if its answer was lost) made one exist
+			for _, c0 := range inv.Calls {
+				if c0 == c {
+					break
+				}
+				if c0.Verb == "create" && c0.Kind == simapi.KindERS && c0.Applied() && c0.Post != nil {
+					prev := c0.Post.(*v1.ExtendedDaemonSetReplicaSet)
+					if kit.MarkerOfTemplate(&prev.Spec.Template) == mk && specEqual(&prev.Spec.Template, &sub.Spec.Template) {
+						m.viol("C13", "C13.one-per-template", map[string]string{"existing": "created-by-this-reconcile", "first-create-outcome": c0.Outcome}, inv, map[string]any{"existing": prev.Name, "template": mk})
+					}
+				}
+			}
 			for _, rs := range v.Own {
 				if rs.DeletionTimestamp == nil && kit.MarkerOfTemplate(&rs.Spec.Template) == mk && specEqual(&rs.Spec.Template, &sub.Spec.Template) {
 					m.viol("C13", "C13.one-per-template", nil, inv, map[string]any{"existing": rs.Name, "template": mk})
